@@ -37,7 +37,7 @@ BOUND = (
     'reassembly: on each of farm.Hand, shelve.comms.Worker, logger.LogSink '
     'every stream of 1..3 frames over a short and a long tiny payload '
     '(streams <= 48 bytes): whole frames, 1-byte chunks, every 2-chunk and '
-    '3-chunk split, every 4-chunk split of two mixed streams (quick) / of '
+    '3-chunk split, every 4-chunk split of one mixed stream (quick) / of '
     'all (thorough), every composition of streams <= 14 (quick) / 19 '
     '(thorough) bytes; streams of real MSG / COMMAND / LogRecord frames '
     '(100-900 bytes): every 2-chunk split, 3-chunk splits exhaustively '
@@ -436,6 +436,7 @@ def variants():
 
 
 _CHALLENGE = {}
+NO_CHALLENGE = b'(no challenge seen)'
 
 
 def challenge_of(name):
@@ -448,9 +449,12 @@ def challenge_of(name):
         ch.feed(struct.pack('>I', 4) + struct.pack('>I', len(blob)) + blob)
         written = ch.transport.data()
         if len(written) < 4:
-            raise RuntimeError('no challenge written by ' + name)
-        n = struct.unpack('>I', written[:4])[0]
-        _CHALLENGE[name] = written[4 : 4 + n]
+            # the server under test never answers a valid identification;
+            # the fault-free variants will then report what is missing
+            _CHALLENGE[name] = NO_CHALLENGE
+        else:
+            n = struct.unpack('>I', written[:4])[0]
+            _CHALLENGE[name] = written[4 : 4 + n]
     return _CHALLENGE[name]
 
 
@@ -511,6 +515,15 @@ def handshake_stream(name, faults, tail):
     return stream, len(pkt1) + len(pkt2), decided, objs, tbytes
 
 
+def _first_fault(faults):
+    '''the fault the server meets first in stream order'''
+    for group in (('p1',), ('s1', 'l1short'), ('p4',)):
+        for f in group:
+            if f in faults:
+                return f
+    return '+'.join(faults)
+
+
 def run_handshake(name, faults, tail, cuts):
     '''returns None or (clause, signature, observed, expected)'''
     # pylint: disable=too-many-locals,too-many-return-statements
@@ -532,7 +545,7 @@ def run_handshake(name, faults, tail, cuts):
             if not ok:
                 return (
                     'C14.handshake.fail',
-                    'delivered-after-' + '+'.join(faults),
+                    'delivered-after-' + _first_fault(faults),
                     {'raw': raw, 'messages': ch.delivered(), 'fed': fed},
                     'nothing reaches the application on a failed handshake',
                 )
@@ -546,6 +559,12 @@ def run_handshake(name, faults, tail, cuts):
     raw = ch.raw()
     if ok:
         want = tbytes[: max(0, fed - hs_end)]
+        sent = ch.transport.data()
+        if sent and sent[4:] != challenge_of(name) != NO_CHALLENGE:
+            raise RuntimeError(
+                'harness precondition: the challenge text differs between '
+                'two runs although clock and random are pinned'
+            )
         if raw != want:
             return (
                 'C14.handshake.tail',
@@ -562,14 +581,11 @@ def run_handshake(name, faults, tail, cuts):
                     ch.delivered(),
                     expected,
                 )
-            sent = ch.transport.data()
-            if sent[4:] != challenge_of(name):
-                raise RuntimeError('challenge is not deterministic')
     else:
         if decided is not None and fed >= decided and not ch.transport.lost:
             return (
                 'C14.handshake.fail',
-                'not-closed-after-' + '+'.join(faults),
+                'not-closed-after-' + _first_fault(faults),
                 {'lost': ch.transport.lost, 'fed': fed, 'decided_at': decided},
                 'loseConnection() once the fault is visible',
             )
@@ -681,13 +697,27 @@ def _frame_cuts(data):
     return cuts
 
 
+def _cost(unit):
+    '''rough number of cases of a unit (only used to order the work)'''
+    what = unit[0]
+    if what == 'compose':
+        return 1 << len(_lookup_stream(unit[1], 'tiny', unit[2])[1])
+    if what in ('tiny', 'real'):
+        n = len(_lookup_stream(unit[1], what, unit[2])[1])
+        ks = unit[3]
+    else:
+        n = 130
+        ks = unit[4]
+    return sum(n ** (k - 1) for k in ks)
+
+
 def plan(tier, seed):
     thorough = tier == 'thorough'
     units = []
     compose_limit = 19 if thorough else 14
     for name in ('farm', 'db', 'log'):
         for label, _objs, data in streams(name):
-            if thorough or label in ('SLS', 'LSL'):
+            if thorough or label == 'SLS':
                 ks = (2, 3, 4)
             else:
                 ks = (2, 3)
@@ -711,7 +741,7 @@ def plan(tier, seed):
                     if thorough:
                         ks = (2, 3)
                     elif (not faults and tail == 'two') or (
-                        faults and tail == 'one'
+                        faults in (('p1',), ('echo',)) and tail == 'one'
                     ):
                         ks = (2, 3)
                 elif thorough and not faults:
@@ -729,6 +759,7 @@ def run(tier: str, seed: int) -> dict:
     t0 = time.time()
     units = plan(tier, seed)
     results = []
+    skipped = 0
     if tier == 'thorough':
         import multiprocessing
 
@@ -736,7 +767,13 @@ def run(tier: str, seed: int) -> dict:
         with multiprocessing.get_context('fork').Pool(nproc) as pool:
             results = pool.map(_unit, units, chunksize=1)
     else:
+        # cheapest units first; under a very busy machine the most expensive
+        # ones are skipped (reported through 'exhaustive': False)
+        units.sort(key=_cost)
         for u in units:
+            if time.time() > t0 + 15.0:
+                skipped += 1
+                continue
             results.append(_unit(u))
     cases = 0
     distinct = set()
@@ -803,6 +840,15 @@ def run(tier: str, seed: int) -> dict:
                     },
                 ),
             )
+    least = {}
+    for (clause, _sig), (size, _rec) in found.items():
+        if clause.startswith('C14.reassembly'):
+            least[clause] = min(size, least.get(clause, size))
+    found = {
+        key: val
+        for key, val in found.items()
+        if key[0] not in least or val[0] == least[key[0]]
+    }
     return {
         'cases': cases,
         'distinct': len(distinct),
@@ -814,11 +860,12 @@ def run(tier: str, seed: int) -> dict:
             'result of a reference run), the whole-frame chunking is one of '
             'the cases'
         ),
-        'exhaustive': True,
+        'exhaustive': skipped == 0,
         'samples': samples,
         'violations': [rec for _size, rec in found.values()],
         'clauses': list(CLAUSES),
         'units': len(units),
+        'units_skipped': skipped,
         'wall_s': round(time.time() - t0, 2),
     }
 
